@@ -222,6 +222,9 @@ DRIVER = os.path.join(VERIF, "lean", ".lake", "build", "bin", "driver")
 def run_driver(lines):
     """feed lines to the compiled Lean driver; returns the answer lines (one per input line)"""
     inp = "\n".join(lines) + "\n"
+    if os.environ.get("VERIF_DUMP_DRIVER_INPUT"):
+        with open(os.environ["VERIF_DUMP_DRIVER_INPUT"] + f".{os.getpid()}", "w") as fh:
+            fh.write(inp)
     if os.path.exists(DRIVER) and not os.environ.get("VERIF_INTERPRET"):
         cmd = [DRIVER]
         cwd = None
